@@ -111,6 +111,22 @@ def run(ctx, replay=None):
         gl = gen_jump.default_globals(rnd) + [realrun.host_global('probe'), realrun.host_global('hostFail')]
         c = {'kind': 'script', 'model': m, 'globals': gl, 'limit': rnd.choice([200, 40]), 'dbg': rnd.random() < 0.5, 'containOnly': True}
         cases.append(realrun.observe(c))
+    # (iv) systemFetch over lists of locations where some fetches fail (missing: the host returns nothing; throws: the host function
+    # raises): every failing element is null, the others keep their text, nothing escapes
+    def ent(url, kind, text=''):
+        return {'url': A.cps(url), 'kind': kind, 'model': [], 'text': text, 'cps': A.cps(text), 'data': True}
+    vfs = [ent('d1.txt', 'text', 'one'), ent('d2.txt', 'text', 'two'), ent('boom.txt', 'throws'), ent('gone.txt', 'missing')]
+    inc = {'vfs': vfs, 'sys': [], 'hasSys': False, 'base': [], 'hasBase': False, 'hasFetch': True}
+    urls = ['d1.txt', 'd2.txt', 'boom.txt', 'gone.txt', 'nowhere.txt']
+    for k in (1, 2, 3):
+        for tup in itertools.product(urls, repeat=k):
+            if k == 3 and rnd.random() < 0.6:
+                continue
+            args = [gen_jump.s(u) if rnd.random() < 0.7 else gen_jump.call('objectNew', gen_jump.s('url'), gen_jump.s(u)) for u in tup]
+            e = gen_jump.call('systemFetch', gen_jump.call('arrayNew', *args)) if k > 1 or rnd.random() < 0.5 else gen_jump.call('systemFetch', args[0])
+            body = [{'k': 'return', 'hasE': True, 'e': e}]
+            cases.append(realrun.observe({'kind': 'script', 'model': body, 'globals': [], 'limit': 100, 'dbg': len(cases) % 2 == 0,
+                                          'inc': json.loads(json.dumps(inc))}))
     for c in cases:
         c.pop('raw_globals', None)
     F.judge(ctx, 'Trace_Core', cases, canaries, invariants=c08.INVS, describe=c03.describe,
